@@ -63,6 +63,7 @@ class ParsableBase(ParsableBaseNoABC):
         raise NotImplementedError()
 
 
+@attr.s
 class ParserCRLF(ParsableBase):
     @classmethod
     def _parse(cls, parsable):
